@@ -22,7 +22,7 @@ type Gen struct {
 var allFeatures = []string{
 	"interp", "if", "for", "formap", "attrs", "style", "show", "vhtml", "vtext", "pipes", "funcs", "expr",
 	"include", "slots", "scoped", "shorthand", "once", "tplvar", "filefn", "less", "frontmatter", "layout",
-	"baselayout", "vpre", "script", "fresh", "nestedfor", "fmcomp", "comment", "config", "lessimport",
+	"baselayout", "vpre", "script", "fresh", "nestedfor", "fmcomp", "comment", "config", "lessimport", "combo",
 }
 
 func NewGen(r *Rand) *Gen {
@@ -272,6 +272,33 @@ func (g *Gen) snippet() string {
 				g.put("data/nav.yml", "nav:\n  - label: Home\n    url: /\n  - label: Docs\n    url: /docs\nsite_name: Overridden Name\n")
 			}
 			return Pick(r, []string{`<p class="cfg">{{ site_name }} {{ palette.primary }}</p>`, `<ul><li v-for="it in nav"><a :href="it.url">{{ it.label }}</a></li></ul>`, `<p v-for="m in menu">{{ m | upper }}</p>`})
+		}},
+		{"combo", func() string {
+			// several directives and static attributes on one element, in a random order: the directives
+			// edit one attribute list between them (v-show and :style both rewrite style, v-html / v-text
+			// replace children, bound attributes are removed after evaluation)
+			opts := []string{`class="cb"`, `style="color:red;margin:1px"`, `:class="cls"`, `:class="cmap"`, `:style="sty"`,
+				`v-show="` + Pick(r, []string{"flag", "off", "!flag", "missing"}) + `"`, `:title="name"`, `title="static"`, `data-k="v"`, `:data-n="n"`,
+				`v-if="` + Pick(r, []string{"flag", "!off", "items"}) + `"`, `v-for="item in items"`, `:id="cls"`, `:hidden="off"`, `:data-m="missing"`}
+			content := Pick(r, []string{`v-html="html"`, `v-html="missing"`, `v-text="title"`, `v-text="missing"`, ``, ``})
+			n := 2 + r.Intn(4)
+			var attrs []string
+			used := map[string]bool{}
+			for len(attrs) < n {
+				o := Pick(r, opts)
+				key := strings.SplitN(o, "=", 2)[0]
+				if used[key] {
+					continue
+				}
+				used[key] = true
+				attrs = append(attrs, o)
+			}
+			if content != "" {
+				at := r.Intn(len(attrs) + 1)
+				attrs = append(attrs[:at], append([]string{content}, attrs[at:]...)...)
+			}
+			tag := Pick(r, []string{"div", "p", "span", "section"})
+			return "<" + tag + " " + strings.Join(attrs, " ") + ">default <b>text</b> {{ name }}</" + tag + ">"
 		}},
 		{"lessimport", func() string {
 			g.Eng.Less = true
